@@ -277,6 +277,10 @@ class ServePatch(RequestHandlerBase):
                 f'{html.escape(manifest)} live mode not supported',
                 400)
 
+        if current_stream.timing_reference is None:
+            logging.warning('stream.timing_reference has not been configured')
+            return flask.make_response(
+                'stream.timing_reference has not been configured', 404)
         try:
             options = self.calculate_options(
                 mode='live', args=flask.request.args, stream=current_stream,
@@ -298,7 +302,7 @@ class ServePatch(RequestHandlerBase):
             stream=current_stream,
             original_publish_time=original_publish_time))
 
-        body = flask.render_template(f'patches/{manifest}.xml', **context)
+        body = flask.render_template(f'patches/{mft.name}.xml', **context)
         try:
             max_age = int(math.floor(context["minimumUpdatePeriod"]))
         except KeyError:
